@@ -4,7 +4,9 @@ from vlib import *
 from l2common import *
 import applyc, streams, gen, emit, scen
 
-THEOREMS = {"C12": [], "C13": [],
+THEOREMS = {"C12": ["strip_path_spec", "strip_path_basename", "unquote_quote", "file_line_plain", "file_line_quoted",
+                    "guess_order", "guess_never_devnull"],
+            "C13": [],
             "C14": ["split_lines_roundtrip", "split_lines_wf", "terminator_keep", "terminator_lf", "terminator_crlf",
                     "final_newline_iff", "apply_output_lines"],
             "C20": ["define_eval"]}
